@@ -21,7 +21,8 @@ type JApi struct {
 func NewJapi(filepath string, oo ...core.Option) (JApi, *jerr.JApiError) {
 	f, err := readPanicFree(filepath)
 	if err != nil {
-		return JApi{}, jerr.NewJApiError(err.Error(), f, 0)
+		// the file could not be read: there is no content to locate the error in
+		return JApi{}, jerr.NewJApiError(err.Error(), fs.NewFile(filepath, ""), 0)
 	}
 	return NewJApiFromFile(f, oo...)
 }
